@@ -56,6 +56,10 @@ def gen_chan_scenario(seed, i):
         if rng.chance(1, 2):
             # a client that only listens to some kinds (process events only, messages only, …)
             o["handlers"] = rng.pick([["start", "complete", "error"], ["message"], ["complete"], ["message", "start"], ["error", "start"]])
+        if rng.chance(1, 3):
+            # a channel that acknowledges: its messages are recorded in the store before they are handed over; several such channels
+            # may select the same message
+            o["ack"] = True
         ops.append(["chan_open", o])
         timeline.append((len(ops) - 1, "open", cid, o))
 
@@ -88,7 +92,7 @@ def gen_chan_scenario(seed, i):
         for pid in ("p1", "p2"):
             ops.append(["act", "next" if not rng.chance(1, 8) else "error", pid, {"open": 0}, {"ecode": "e1"}])
             ops.append(["runall"])
-    return {"id": f"ch-{seed}-{i}", "config": {"keep": True}, "models": [WF], "ops": ops}, timeline
+    return {"id": f"ch-{seed}-{i}", "config": {"keep": True, "store": "sqlite" if i % 3 == 1 else "mem"}, "models": [WF], "ops": ops}, timeline
 
 
 def fields_of(o):
